@@ -7,7 +7,10 @@
    `dec_m`/`dec_d` are the (arbitrary) decompressors; `wf_hist` says that every bulk of h decodes
    to its own non-empty documents and that equal IDs carry equal documents; `acked_of h` /
    `tried_of h` are the bulks h acknowledges / interrupts; `fetch`/`search` read through the index
-   rebuilt by the last start. *)
+   rebuilt by the last start. `wf_hist` also says `fault_free`: no write of the history fails with an
+   I/O error (HFault). Histories WITH such a failure are executable in the same model (it mirrors
+   what FileWriter/ActiveWriter leave behind) and violate the statements: see the two
+   C01_fault_refuted_* examples at the end (genuine defects of the current code, reported). *)
 From Coq Require Import List NArith.
 From C01 Require Import Model Proofs Proofs2 Proofs4 Proofs6 Proofs7 CaseDefs Witness.
 Import ListNotations.
@@ -163,3 +166,25 @@ Proof.
   destruct w_split_breaks as (A & B). destruct w_locked_fine as (C & D & _).
   split; [exact A |]. split; [exact B |]. split; [discriminate |]. split; [exact C | exact D].
 Qed.
+
+(* ---------- a single write that FAILS (EFBIG/ENOSPC/EIO), no crash: FileWriter.Write has advanced
+   its offset and never takes it back, so the blocks of later, acknowledged bulks no longer start
+   where Replay (summing Ext1) will look for them. The model mirrors the current code; without the
+   hypothesis fault_free the durability statement is false: ---------- *)
+
+(* the docs write of bulk 2 fails after 2 bytes; bulk 3 is acknowledged and readable while the
+   store runs; after the next start its document cannot be fetched and meta order <> docs order *)
+Example C01_fault_refuted_docs_write :
+  wf_hist_faulty wdm wdd (w_fault_hist false 2) /\
+  In wb3 (acked_of (w_fault_hist false 2)) /\ In wd3 (b_docs wb3) /\
+  live_fetch [HRestart; HBulk wb1; HFault wb2 false 2; HBulk wb3] (d_id wd3) = Some (Body (d_body wd3)) /\
+  final_fetch (run wdm (w_fault_hist false 2)) (d_id wd3) = Some FetchErr.
+Proof.
+  split; [apply w_fault_wf |]. split; [right; left; reflexivity |]. split; [left; reflexivity |].
+  split; [exact w_fault_docs_live | exact (proj1 w_fault_docs_restart)].
+Qed.
+
+(* the meta write of bulk 2 fails after 34 bytes; bulk 3 is acknowledged; the next start dies *)
+Example C01_fault_refuted_meta_write :
+  wf_hist_faulty wdm wdd (w_fault_hist true 34) /\ run wdm (w_fault_hist true 34) = Panic.
+Proof. split; [apply w_fault_wf | exact w_fault_meta_restart]. Qed.
